@@ -80,13 +80,26 @@ def rule_D1(ctx) -> None:
         unset: Set[str] = set()
         for cand, atoms in (("PLACEHOLDER", {("op", "is", raw_is_set, PLACEHOLDER): True, ("op", "is", raw_is_set, C(None)): False}),
                             ("None", {("op", "is", raw_is_set, PLACEHOLDER): False, ("op", "is", raw_is_set, C(None)): True})):
-            paths = Interp(mod, bindings={opt_sym: opt}, assume=atoms).run(is_set)
+            # the sentinel question is asked for a plain scalar member: not a wrapper, not a container / sub-message (V7 decides
+            # those kinds) and, where is_set answers oneof members from the selection table, outside a group (D1b decides that)
+            extra = {}
+            for p0 in Interp(mod, bindings={opt_sym: opt}, assume=atoms).run(is_set):
+                for k in p0.valuation:
+                    txt = show(k)
+                    if txt.startswith("isinstance(") or txt.endswith(".wraps"):
+                        extra[k] = False
+                    elif ".group is None" in txt:
+                        extra[k] = True
+                    elif ".group is not None" in txt:
+                        extra[k] = False
+            paths = Interp(mod, bindings={opt_sym: opt}, assume={**atoms, **extra}).run(is_set)
             ctx.count(len(paths))
             vals = set()
             for p in paths:
                 if p.outcome != "return" or p.value is None:
                     continue
-                vals.add(_eval_under(p.value, atoms))
+                wraps_sym = A(("sub", A(A(SELF, "_betterproto"), "meta_by_field_name"), N(name_p)), "wraps")
+                vals.add(_eval_under(p.value, {**atoms, **extra, wraps_sym: False}))
             if vals == {False}:
                 unset.add(cand)
             elif vals != {True}:
@@ -694,3 +707,102 @@ def rule_O4(ctx) -> None:
             else:
                 ctx.proved("O4", name, mod.loc(fn), f"{len(paths)} paths")
         ctx.floor("O4", f"{ename} type branches", n_br, 17)
+
+
+# ---------------------------------------------------------------------------
+# V7 a read is not a set: what __getattribute__ may store while reading is reported unset by is_set
+
+
+def rule_V7(ctx, rule: str = "V7") -> None:
+    """__getattribute__ replaces the placeholder only by mutable defaults (objects that must keep their identity to be
+    filled in place), and is_set answers for exactly those kinds from their content, not from 'is not the placeholder' """
+    mod = ctx.repo.mod(M_INIT)
+    ga = mod.func("Message.__getattribute__")
+    isf = mod.func("Message.is_set")
+    ctx.analysed("Message.__getattribute__", "Message.is_set")
+    paths = Interp(mod).run(ga)
+    ctx.count(len(paths))
+    stored_kinds: Set[str] = set()
+    unguarded = None
+    n_store = 0
+    for p in paths:
+        stores = [e for e in p.events if e.kind == "call" and dotted(e.data[1]) in ("super().__setattr__", "object.__setattr__")]
+        if not stores:
+            continue
+        n_store += 1
+        val = stores[0].data[2][-1]
+        kinds = None
+        for k, v in p.valuation.items():
+            if v and k[0] == "call" and k[1] == N("isinstance") and len(k[2]) == 2 and k[2][0] == val:
+                t = k[2][1]
+                kinds = {show(x) for x in t[1]} if t[0] == "tuple" else {show(t)}
+        if kinds is None:
+            unguarded = p
+        else:
+            stored_kinds |= kinds
+    if n_store == 0:
+        ctx.proved(rule, "__getattribute__:stores-only-mutable-defaults", mod.loc(ga), "a read stores nothing")
+    elif unguarded is not None:
+        ctx.refuted(rule, "__getattribute__:stores-only-mutable-defaults", "every-default-stored", mod.loc(ga),
+                    "reading a never-assigned field stores its default whatever its kind; the raw value is then no longer the placeholder and is_set (defined through the placeholder) "
+                    "answers True after a mere read - for wrapper fields (default None), scalars, and sub-messages alike", "m = M(); m.is_set('w') is False; m.w; m.is_set('w') is True")
+    elif not stored_kinds <= {"Message", "list", "dict"}:
+        ctx.refuted(rule, "__getattribute__:stores-only-mutable-defaults", ",".join(sorted(stored_kinds)), mod.loc(ga), f"defaults of kinds {sorted(stored_kinds)} are stored on read")
+    else:
+        ctx.proved(rule, "__getattribute__:stores-only-mutable-defaults", mod.loc(ga), ",".join(sorted(stored_kinds)))
+    # is_set: for each stored kind, the freshly created default (flag off / empty) of a plain field is "not set"
+    first = Interp(mod, fork_ifexp=True).run(isf)
+    atoms = {}
+    for p in first:
+        for k in p.valuation:
+            atoms[k] = show(k)
+    for kind in sorted(stored_kinds or {"Message", "list", "dict"}):
+        assume = {}
+        for k, txt in atoms.items():
+            if "is PLACEHOLDER" in txt:
+                assume[k] = False
+            elif txt.endswith(".optional"):
+                assume[k] = False
+            elif ".group is None" in txt:
+                assume[k] = True
+            elif ".group is not None" in txt or txt.endswith(".group"):
+                assume[k] = False
+            elif txt.startswith("isinstance("):
+                assume[k] = kind in txt.split(",", 1)[1]
+            elif "_serialized_on_wire" in txt:
+                assume[k] = False
+            elif txt.endswith(".wraps"):
+                assume[k] = False
+        res = Interp(mod, fork_ifexp=True, assume=assume).run(isf)
+        ctx.count(len(res))
+        verdicts = set()
+        for p in res:
+            v = p.value
+            if v == C(False):
+                verdicts.add("F")
+            elif v == C(True):
+                verdicts.add("T")
+            elif v is not None and _content_only(v):
+                verdicts.add("content")
+            else:
+                verdicts.add("other:" + show(v))
+        name = f"is_set:read-created-default[{kind}]"
+        if verdicts <= {"F", "content"} and verdicts:
+            ctx.proved(rule, name, mod.loc(isf), ",".join(sorted(verdicts)))
+        else:
+            ctx.refuted(rule, name, ",".join(sorted(verdicts)), mod.loc(isf),
+                        f"for a plain field whose raw value is a {kind} is_set answers {sorted(verdicts)} without looking at the value's content: a default that __getattribute__ "
+                        "created on a read counts as set", "m = M(); m.inner; m.is_set('inner')")
+
+
+def _content_only(v: Sym) -> bool:
+    """the term is a disjunction/conjunction of truthiness / presence-flag tests of the raw value"""
+    if v[0] == "op" and v[1] in ("or", "and"):
+        return all(_content_only(x) for x in v[2:])
+    if v[0] == "call" and v[1] == N("bool") and len(v[2]) == 1:
+        return True
+    if v[0] == "a" and v[2] == "_serialized_on_wire":
+        return True
+    if v[0] == "call" and v[1] == N("len"):
+        return True
+    return False
